@@ -1692,3 +1692,123 @@ Qed.
 Theorem contract_trace c st sa dr n0 a n :
   rn_new c st sa dr = Ok (inr n0) -> init_ok c st n0 -> crun (init_app c st) n0 a n -> Good a n.
 Proof. intros H Hi R. eapply crun_good; [exact R|]. eapply init_good; eassumption. Qed.
+
+(* ---- (1) C14, node level: the log invariant and its bounds with no per-step side condition ---- *)
+Theorem contract_log_ok c st sa dr n0 a n :
+  rn_new c st sa dr = Ok (inr n0) -> init_ok c st n0 -> crun (init_app c st) n0 a n ->
+  NLI false n
+  /\ applied (nlog n) <= committed (nlog n) /\ committed (nlog n) <= last_index (nlog n)
+  /\ last_index (nlog n) < u64_max
+  /\ persisted (nlog n) <= storage_last_index (store (nlog n))
+  /\ applied (nlog n) <= rn_commit_since_index n /\ rn_commit_since_index n <= committed (nlog n)
+  /\ first_of (store (nlog n)) <= rn_commit_since_index n + 1
+  /\ a_store a = store (nlog n) /\ a_applied a = applied (nlog n)
+  /\ a_cursor a = rn_commit_since_index n.
+Proof.
+  intros H Hi R. pose proof (contract_trace _ _ _ _ _ _ _ H Hi R) as G.
+  pose proof (Good_NLI a n G) as HI.
+  destruct (NLI_bounds false n HI) as (B1 & B2 & B3 & _ & B5).
+  splits; auto.
+  - exact (g_app_le a n G).
+  - exact (g_csi_commit a n G).
+  - exact (g_first a n G).
+  - exact (g_store a n G).
+  - exact (g_applied a n G).
+  - exact (Good_cursor a n G).
+Qed.
+
+(* every residual caller-side hypothesis of the earlier trace theorems holds at the next
+   call of a contract-abiding application (storage writes are covered by contract_step) *)
+Theorem contract_side_conditions c st sa dr n0 a n o :
+  rn_new c st sa dr = Ok (inr n0) -> init_ok c st n0 -> crun (init_app c st) n0 a n ->
+  app_ok a o -> peer_ok o -> idx_margin n o -> (forall m, o <> OSetStore m) ->
+  op_wf n o /\ op_wf2 n o /\ op_pre_node2 n o /\ op_pre n o.
+Proof.
+  intros H Hi R Ha Hp Hm Hns. pose proof (contract_trace _ _ _ _ _ _ _ H Hi R) as G.
+  destruct (side_ok a n o G Ha Hp Hm Hns) as [W2 W3].
+  splits; [exact (proj1 W2)|exact W2|exact W3|].
+  eapply op_pre_node_op_pre; [exact (Good_NLI a n G)|].
+  eapply op_pre_node2_node; [exact (Good_NLI a n G)|exact (Good_CsiOK a n G)|exact W3].
+Qed.
+
+(* ---- (2) C07: the hand-out history along a contract-abiding trace ---- *)
+Theorem handout_contiguous_from_contract c st sa dr n0 a n :
+  rn_new c st sa dr = Ok (inr n0) -> init_ok c st n0 -> crun (init_app c st) n0 a n ->
+  Hist n (a_hist a)
+  /\ contiguous_from (fst (a_hist a) + 1) (snd (a_hist a))
+  /\ rn_commit_since_index n = fst (a_hist a) + N.of_nat (length (snd (a_hist a))).
+Proof.
+  intros H Hi R. pose proof (contract_trace _ _ _ _ _ _ _ H Hi R) as G.
+  pose proof (g_hist a n G) as HH. split; [exact HH|exact HH].
+Qed.
+
+(* each committed entry handed out is the log's entry at its index, at or below the commit
+   index, when it is handed out *)
+Theorem handed_entries_are_log_entries a n o n' ot :
+  Good a n -> app_ok a o -> peer_ok o -> idx_margin n o -> exec n o = Ok (n', ot) ->
+  forall e, In e (snd ot) ->
+    match o with
+    | OReady => ll_get (abs (nlog n)) (e_index e) = Some e /\ e_index e <= committed (nlog n)
+    | OAdvanceAppend _ => ll_get (abs (nlog n')) (e_index e) = Some e /\ e_index e <= committed (nlog n')
+    | OAdvance rd => exists n1 lr, rn_advance_append n rd = Ok (n1, lr)
+                       /\ ll_get (abs (nlog n1)) (e_index e) = Some e /\ e_index e <= committed (nlog n1)
+    | _ => False
+    end.
+Proof.
+  intros G Ha Hp Hm E e Hin.
+  destruct (is_setstore_dec o) as [[m ->]|Hns].
+  { cbn [exec] in E. inversion E; subst. destruct Hin. }
+  destruct (side_ok a n o G Ha Hp Hm Hns) as [W2 W3].
+  pose proof (Good_NLI a n G) as HI. pose proof (Good_CsiOK a n G) as Hc.
+  assert (Hpre : op_pre n o).
+  { eapply op_pre_node_op_pre; [exact HI|]. eapply op_pre_node2_node; eassumption. }
+  assert (Haa : forall rd n1 lr, op_pre n (OAdvanceAppend rd) -> rn_advance_append n rd = Ok (n1, lr) ->
+            forall e, In e (lr_committed_entries lr) ->
+              ll_get (abs (nlog n1)) (e_index e) = Some e /\ e_index e <= committed (nlog n1)).
+  { intros rd n1 lr Hp' Hx e' Hin'.
+    destruct (rn_advance_append_inv _ _ _ _ Hx) as (m1 & m2 & m3 & lr3 & H1 & H2 & H3 & _ & _ & _ & _ & Hn' & Hl).
+    specialize (Hp' m1 m2 H1 H2).
+    destruct (handout_step _ _ _ Hp' H3) as (_ & _ & Hall).
+    assert (El : nlog n1 = nlog m2) by (subst n1; exact (gen_light_ready_log _ _ _ H3)).
+    rewrite El. subst lr. cbn [lr_committed_entries] in Hin'. destruct (Hall e' Hin') as [A B].
+    split; [exact A|]. pose proof (apply_bound_le (r_log (rn_raft m2))). unfold nlog. lia. }
+  destruct o; try (match type of E with exec _ ?o = _ =>
+                     destruct (quiet_ops_csi n o n' ot I E) as [-> _] end; cbn in Hin; destruct Hin).
+  - (* ready *)
+    cbn [exec] in E. inv_bind E. destruct x as [n1 rd]. cbn [fst snd] in E. inversion E; subst n' ot. clear E.
+    cbn [snd] in Hin. cbn [op_pre] in Hpre.
+    destruct (rn_ready_inv _ _ _ Hx) as (recs0 & snap & csi & rec_snap & ms2 & n2 & light & _ & Hsnap & Hgl & _ & Hrd).
+    assert (Hcsi : csi = ready_since n).
+    { unfold ready_snap in Hsnap. unfold ready_since.
+      destruct (u_snapshot (unst (r_log (rn_raft n)))); [|inversion Hsnap; reflexivity].
+      destruct Hsnap as (_ & _ & E0). inversion E0; reflexivity. }
+    subst csi. assert (Elight : rd_light rd = light) by (subst rd; reflexivity). rewrite Elight in Hin.
+    match type of Hgl with gen_light_ready ?nx = _ =>
+      destruct (handout_step nx _ _ Hpre Hgl) as (_ & _ & Hall) end.
+    destruct (Hall e Hin) as [A B].
+    split; [exact A|]. pose proof (apply_bound_le (r_log (rn_raft n))). unfold nlog. cbn in B. lia.
+  - (* advance *)
+    cbn [exec] in E. inv_bind E. destruct x as [n2 lr2]. cbn [fst snd] in E. inversion E; subst n' ot. clear E.
+    cbn [snd] in Hin. unfold rn_advance in Hx. inv_bind Hx. destruct x as [n1 lr1]. cbn [fst snd] in Hx.
+    inv_bind Hx. inversion Hx; subst x lr2. exists n1, lr1. split; [exact Hx0|].
+    eapply Haa; [exact Hpre|exact Hx0|exact Hin].
+  - cbn [exec] in E. inv_bind E. destruct x as [n1 lr1]. cbn [fst snd] in E. inversion E; subst n' ot. clear E.
+    cbn [snd] in Hin. eapply Haa; [exact Hpre|exact Hx|exact Hin].
+Qed.
+
+(* ---- (3) C20: no node-local or log/storage-shape panic along a contract-abiding trace ---- *)
+Theorem contract_next_no_panic a n o s :
+  Good a n -> app_ok a o -> peer_ok o -> idx_margin n o -> exec n o = Panic s -> ~ In s all_sites.
+Proof.
+  intros G Ha Hp Hm E.
+  destruct (is_setstore_dec o) as [[m ->]|Hns]; [cbn [exec] in E; discriminate|].
+  destruct (side_ok a n o G Ha Hp Hm Hns) as [W2 _].
+  eapply (exec_no_panic false); [exact (g_good a n G)|exact W2|exact E].
+Qed.
+
+Theorem contract_no_local_or_shape_panic c st sa dr n0 a n o s :
+  rn_new c st sa dr = Ok (inr n0) -> init_ok c st n0 -> crun (init_app c st) n0 a n ->
+  app_ok a o -> peer_ok o -> idx_margin n o -> exec n o = Panic s -> ~ In s all_sites.
+Proof.
+  intros H Hi R. apply contract_next_no_panic. eapply contract_trace; eassumption.
+Qed.
